@@ -811,6 +811,15 @@ func genSign(r *Runner, prop string) {
 		s.ext = []attrSpec{{"my.attr", true, "v"}, {"other", false, 42}, {"third", true, []any{1, "a"}}}
 	})
 	add("ext-dup-key", "", func(s *signSpec) { s.ext = []attrSpec{{"k", true, "1"}, {"k", false, "2"}} })
+	// a repeated key is a repeated key whatever the values are: nil, the zero value of a type, equal values
+	for i, pair := range [][2]any{{nil, "2"}, {"1", nil}, {nil, nil}, {"", "2"}, {0, 1}, {false, true}, {[]any{}, "2"}, {map[string]any{}, "2"}, {"same", "same"}} {
+		pair := pair
+		add(fmt.Sprintf("ext-dup-key-values-%d", i), "", func(s *signSpec) { s.ext = []attrSpec{{"k", true, pair[0]}, {"k", true, pair[1]}} })
+		add(fmt.Sprintf("ext-dup-key-values-%d-apart", i), "", func(s *signSpec) {
+			s.ext = []attrSpec{{"k", false, pair[0]}, {"between", false, "x"}, {"k", false, pair[1]}}
+		})
+		add(fmt.Sprintf("ext-dup-int-key-values-%d", i), "cose", func(s *signSpec) { s.ext = []attrSpec{{int64(77), true, pair[0]}, {int(77), false, pair[1]}} })
+	}
 	for _, k := range []string{"alg", "cty", "crit", "io.cncf.notary.expiry", "io.cncf.notary.signingTime", "io.cncf.notary.signingScheme", "io.cncf.notary.authenticSigningTime",
 		"Alg", "CTY", "io.cncf.notary.signingtime", "IO.CNCF.NOTARY.EXPIRY"} {
 		k := k
